@@ -3,6 +3,7 @@ import Martian.SemaphoreSys
 import Martian.SemaphoreQueue
 import Martian.SemaphoreRefresh
 import Martian.SemaphoreMJP
+import Martian.SemaphoreConfig
 import Driver.Util
 
 /-! Line-protocol handler for property C12.
@@ -28,6 +29,8 @@ import Driver.Util
   Acquire, `u<caller>:<st>` a signalled caller re-runs the loop, `r<job>`, `f<job>.<job>…`, `c`, `Q<st of job 0><st of job 1>…` quiesce
   (every signalled caller runs). Reply per op: `<|running|>:<parked callers .-separated>:<woken callers>:<T|F|-|!>`; for `Q` the last
   field lists the callers that returned: `<caller>=<T|F>` `.`-separated (or `-`).
+* `C12.setmax  <localcores,localmem,localvmem,cluster 0|1>  <numCPU,total,actualFree,cgMem,cgUse,vmemLimit,highVmem,threadsPerJob,memGBPerJob>`:
+  the limits `NewLocalJobManager` arrives at (Martian/SemaphoreConfig.lean). Reply `maxCores,maxMemGB,maxVmemMB`.
 * `C12.acq  <max,cur,reserved>  <waiting amounts | .>  <n>`: one `Acquire(n)` (id 0) on that state, reply as an entry of `C12.sem`.
 * `C12.cfgsizes  <maxCores,maxMemGB,maxVmemMB,threadsPerJob,memGBPerJob,extraVmemGB>  <procs left for jobs | ->  <cores,mem,vmem,procs amounts>`:
   reply `<Sane 1/0>|<localSizes ,-separated>|<localAmounts ,-separated>`.
@@ -247,6 +250,16 @@ def handle (op : String) (args : List String) : Option String :=
     let l ← int? limit
     let out ← mjpTrace (MJP.init l) (if ops == "." then [] else ops.splitOn ",")
     pure (";".intercalate out)
+  | "setmax", [fl, ma] => do
+    let f ← ints? fl
+    let m ← ints? ma
+    match f, m with
+    | [c, mg, vg, cl], [ncpu, tot, af, cgm, cgu, vl, hv, tpj, mpj] =>
+      let fl : Martian.SemaphoreConfig.Flags := ⟨c, mg, vg, cl != 0⟩
+      let mc : Martian.SemaphoreConfig.Machine := ⟨ncpu, tot, af, cgm, cgu, vl, hv, tpj, mpj⟩
+      let r := Martian.SemaphoreConfig.setMaxModel fl mc 0
+      pure s!"{r.maxCores},{r.maxMemGB},{r.maxVmemMB}"
+    | _, _ => none
   | "acq", [st, ws, n] => do
     let st ← ints? st
     let ws ← (if ws == "." then some [] else ints? ws)
